@@ -4,7 +4,7 @@
 #   MANIFEST.json regenerated and valid, every evidence file valid.
 cd "$(dirname "$0")/.."
 set -u
-tools/rerecord.sh || exit 1
+tools/rerecord.sh || { echo "REGRESSION REPLAYS NOT RE-RECORDED"; exit 1; }
 python3 tools/mkmanifest.py || exit 1
 fail=0
 for id in C04 C05 C06 C10 C12 C13 C16 C17 C20; do
